@@ -76,7 +76,7 @@ static mode_t stdin_mode(void);
 static int stdin_kind = 0; /* 0: as the kernel says (a pipe), 1 regular file, 2 fifo, 3 character device, 4 socket */
 static unsigned char *sin_buf; static size_t sin_len, sin_pos;
 static char *plan_path; static size_t plan_path_len;
-static unsigned char *file_buf; static size_t file_len; static int have_file;
+static unsigned char *file_buf; static size_t file_len; static int have_file; /* file_len: also set from fstat when the planned path is a real file */
 static char *real_path;
 static int planned_fd = -1;
 static unsigned long n_getrandom;
@@ -192,7 +192,8 @@ __attribute__((destructor)) static void fini(void) {
 /* Bounded liveness in logical steps: once the script of a class is exhausted the kernel is fault-free, so a
  * correct program finishes after a number of calls proportional to its input. A program that keeps calling
  * (e.g. retrying a read that reports end of stream) is stopped after STEP_LIMIT further calls of that class. */
-#define STEP_LIMIT 200000L
+/* generous: twice the input size (a plan may deliver the input one byte per call) plus a constant */
+#define STEP_LIMIT (200000L + 2L * (long)(sin_len + file_len))
 static long calls_after_script[C_N];
 static void log_flush(void);
 static struct ev *next_ev(int c) {
@@ -328,6 +329,7 @@ static int sim_open(const char *path, int flags) {
     int fd;
     if (real_path) {
         fd = (int)syscall(SYS_openat, AT_FDCWD, real_path, flags, 0);
+        if (fd >= 0) { struct stat st0; if (syscall(SYS_fstat, fd, &st0) == 0 && st0.st_size > 0) file_len = (size_t)st0.st_size; }
         logf_("@O ret=%d errno=%d kind=real\n", fd >= 0 ? 0 : -1, fd >= 0 ? 0 : errno);
     } else if (have_file) {
         fd = (int)syscall(SYS_memfd_create, "simenv", 0u);
